@@ -96,6 +96,7 @@ struct Case {
     // monitor books
     recs: [BTreeMap<u64, Rec>; 3],
     claimed_la: [Option<u64>; 3],
+    initial_discarded: bool,
     aa_limit: bool,
     confirmed: bool,
     last_shrink: Option<u64>,
@@ -190,7 +191,15 @@ async fn apply(c: &mut Case, sink: &mut Sink, op: &Op) -> bool {
     match op {
         Op::Sent { e, pn, elic, infl, size } => {
             c.recs[*e].insert(*pn, Rec { ts: now, elic: *elic, infl: *infl, size: *size, acked: false, lost: false });
-            if *e == 1 && !c.server { c.recs[0].clear(); }
+            if *e == 1 && !c.server {
+                // clause 3c: the backoff survives sending (Initial keys can only be discarded once)
+                if c.initial_discarded && post.num("pto") < pre.num("pto") {
+                    sink.branch("mon:pto_reset_on_send");
+                    sink.monitor_fail("pto_reset_on_send", &format!("client sent Handshake pn {}: pto_count {} -> {} although the Initial space was discarded before", pn, pre.num("pto"), post.num("pto")));
+                }
+                c.recs[0].clear();
+                c.initial_discarded = true;
+            }
         }
         Op::Ack { e, ranges, ce, .. } => {
             c.claimed_la[*e] = Some(c.claimed_la[*e].map_or(ranges[0].1, |x| x.max(ranges[0].1)));
@@ -204,7 +213,7 @@ async fn apply(c: &mut Case, sink: &mut Sink, op: &Op) -> bool {
             if ce.is_some() { ecn_trigger = newly_acked.iter().map(|r| r.ts).max(); }
             if *e == 1 && c.server { c.recs[0].clear(); }
         }
-        Op::Discard(e) => { c.recs[*e].clear(); }
+        Op::Discard(e) => { c.recs[*e].clear(); if *e == 0 { c.initial_discarded = true; } }
         Op::Grant => c.aa_limit = false,
         Op::Limit => c.aa_limit = true,
         Op::Confirmed => c.confirmed = true,
@@ -307,7 +316,7 @@ fn new_case(server: bool, mtu: u16, mad_ns: u64, strict: bool) -> Result<Case, S
     ];
     let ps2 = ps.clone();
     let cc = catch(move || ArcCC::new(Algorithm::NewReno, Duration::from_nanos(mad_ns), trackers, ps2, ArcSendWaker::new()))?;
-    Ok(Case { cc, hs, ps, origin: Instant::now(), log, server, recs: Default::default(), claimed_la: [None; 3], aa_limit: true, confirmed: false,
+    Ok(Case { cc, hs, ps, origin: Instant::now(), log, server, recs: Default::default(), claimed_la: [None; 3], initial_discarded: false, aa_limit: true, confirmed: false,
               last_shrink: None, strict, n_lost: 0, n_acked: 0, n_pto: 0 })
 }
 
